@@ -362,6 +362,10 @@ def _drive(world, scenario, run, res, hooks):
     if cfg.get("no_run"):
         return ("not_run",)
     # ---- run
+    if cfg.get("setup_gap"):
+        # the scenario script takes a while between starting/connecting the simulators and run()
+        # (synchronously: the virtual wall clock advances, nothing else happens)
+        run.loop._vtime += cfg["setup_gap"]
     run.rec("run_called")
     try:
         world.run(until=scenario["until"], rt_factor=cfg.get("rt_factor"),
